@@ -50,7 +50,6 @@ def specJson (s : GrpcSpec) : Json :=
 
 def grpcOutcomeJson : GrpcOutcome → Json
   | .absent => Json.mkObj [("outcome", sj "absent")]
-  | .keyError => Json.mkObj [("outcome", sj "KeyError")]
   | .sent s => Json.mkObj [("outcome", sj "sent"), ("spec", specJson s)]
 
 def restOutcomeJson : RestOutcome → Json
